@@ -255,16 +255,17 @@ structure St where
   nextId : Nat                     -- get_next_available_stream_id()
   ms : List (Nat × Bool)           -- Http2Connection.streams: ours ↦ (HEADERS_RECEIVED?)
   closed : Bool                    -- _handle_event is self.done
-  up : List (Nat × UpKind)         -- ReceiveHttp events (client-side stream id, kind)
+  up : List (Nat × UpKind × Option Nat)  -- ReceiveHttp events: client-side stream id, kind (+ ghost: the upstream id)
   crashed : Bool                   -- KeyError in their_stream_id[...] (cannot happen, see `response_routed`)
   -- ghost state (written, never read by the transitions)
   sub : List (Nat × Ev)            -- every event submitted by the HTTP layer
   fw : List (Nat × Nat × Ev)       -- (their, ours, event) in the order `_handle_event2` saw them
   allocs : List (Nat × Nat × Nat)  -- (their, open_outbound_streams before, limit) at each id allocation
+  arr : List Nat                   -- client stream ids in the order their first event arrived
 deriving Repr
 
 def St.init : St :=
-  ⟨Conn.init, [], [], [], [], some 10, 4294967297, 1, [], false, [], false, [], [], []⟩
+  ⟨Conn.init, [], [], [], [], some 10, 4294967297, 1, [], false, [], false, [], [], [], []⟩
 
 /-- `self.provisional_max_concurrency or self.h2_conn.remote_settings.max_concurrent_streams` -/
 def St.limit (σ : St) : Nat :=
@@ -322,7 +323,7 @@ def St.pending (σ : St) : Nat := σ.stack.length + (σ.queue.map (·.2.length))
 /-- mitmproxy's reaction to one reported event; `true`: stop processing the rest of the segment -/
 def St.upward (σ : St) (o : Nat) (k : UpKind) : St :=
   match alookup o σ.theirs with
-  | some t => { σ with up := σ.up ++ [(t, k)] }
+  | some t => { σ with up := σ.up ++ [(t, k, some o)] }
   | none => { σ with crashed := true }
 
 /-- `close_connection`: every stream we have opened and not seen finished gets a protocol error -/
@@ -357,7 +358,7 @@ def St.handleAll : St → List SEv → St
 
 /-- queued streams are failed once the connection is gone -/
 def St.failQueued (σ : St) : St :=
-  { σ with up := σ.up ++ σ.queue.map (fun p => (p.1, UpKind.err)), queue := [] }
+  { σ with up := σ.up ++ σ.queue.map (fun p => (p.1, UpKind.err, none)), queue := [] }
 
 inductive Input where
   | client (t : Nat) (ev : Ev)
@@ -370,7 +371,8 @@ def St.step (σ : St) : Input → St
   | .client t ev =>
     if σ.closed then σ       -- `done`: the event is ignored
     else
-      let σ := { σ with sub := σ.sub ++ [(t, ev)], stack := [(t, ev)] }
+      let isNew := (alookup t σ.ours).isNone && !(σ.queue.map (·.1)).contains t
+      let σ := { σ with sub := σ.sub ++ [(t, ev)], stack := [(t, ev)], arr := if isNew then σ.arr ++ [t] else σ.arr }
       St.drain (σ.pending + 1) σ
   | .server evs =>
     if σ.closed then σ
